@@ -136,6 +136,25 @@ CLAIMED = {
              "featuretype collections (treated by the code as no filter) are outside the domain.",
         technique="Coq proof (sort = sorted permutation under a proved total preorder; filter exactness) + differential correspondence with membership+sortedness acceptance",
         design="4 (C11)"),
+    "C16": dict(
+        text="Coq theorems (Properties/C16.v, closed under the global context) about the model of FeatureDB.merge with the "
+             "criteria regenerated from merge_criteria.py on every run: for ARBITRARY criteria the outputs partition the inputs "
+             "in order (each input yielded unchanged or a child of exactly one merged output); a feature joins the run exactly "
+             "when every criterion accepts (run so far, feature); merged outputs span min start .. max end of their children; "
+             "fresh ids are pairwise distinct and were never issued before (via autoid injectivity); with the default criteria "
+             "on start-ordered features of one (seqid, strand, type) class consecutive outputs are separated by >= 1 uncovered "
+             "base and every base of an output is covered by a member, i.e. the extents are the maximal runs (the interval "
+             "union). 'Merging the same objects again', previously merged objects, ambiguous-value columns, children_bp (sum, "
+             "and per-class union size with merge=True) and merge_all (new row per multi-member run; members related at level 1 "
+             "or deleted) are decided by the correspondence: every multiset of <= 3 (thorough: 4) intervals over 8 positions, "
+             "17 criteria sets incl. thresholds and two custom criteria, ~14k cases per quick run compared inside Coq.",
+        note="Trusted: Coq kernel + vm_compute; translator for merge_criteria.py; Model/Merge.v (the loop, _finalize_merge, "
+             "children_bp, merge_all) hand-written and tied by the correspondence. Known finding F19 (start-ordered but "
+             "class-interleaved input is not merged across the interleaving; children_bp(merge=True) then exceeds the per-class "
+             "union) is recorded with a Coq refutation (Examples/C16_inhabited.v). The union-cardinality form of children_bp "
+             "and merge_all are not theorems (correspondence + direct spec check only).",
+        technique="Coq proof over translator-generated criteria (partition, hull, fresh ids, maximal runs by induction over the pass) + exhaustive small-scope differential correspondence",
+        design="4 (C16)"),
 }
 
 PENDING_REASON = "machinery for this property is not built yet in this revision (planned, see DESIGN.md section 4/9); not claimed until its check exists"
